@@ -129,8 +129,10 @@ func (c *syncMap) DeleteAll(ctx context.Context) {
 	cnt := 0
 
 	c.data.Range(func(key, _ interface{}) bool {
-		c.data.Delete(key)
-		cnt++
+		// Entry may have been deleted concurrently, it is counted by whoever removed it.
+		if _, loaded := c.data.LoadAndDelete(key); loaded {
+			cnt++
+		}
 
 		return true
 	})
